@@ -1,11 +1,13 @@
 import Proofs.Apps.Site
 import Proofs.Apps.Wkc
+import Proofs.Apps.LinkFormat
 /-!
 # C17 — Site routing: exact match, longest prefix for nested sites, matching discovery
 
 Model: `AiocoapModel/Apps/Site.lean` (`Site.routeFrom`, `Site.route`, `Site.serve`, `Site.reg`)
-and `AiocoapModel/Apps/Wkc.lean` (`Site.links`, `hrefSegs`, `wkcRender`) — the functions the
-driver runs against the real `Site` / `WKCResource`.  All theorems hold for every tree of
+and `AiocoapModel/Apps/Wkc.lean` (`Site.links`, `hrefSegs`, `wkcRender`, `wkcPayload`) — the
+functions the driver runs against the real `Site` / `WKCResource`; the RFC 6690 reader the wire
+theorems are stated with is `Proofs/Apps/LinkFormat.lean` (`readLinkFormat`).  All theorems hold for every tree of
 registrations (any nesting depth, any keys incl. empty components and empty paths, any bytes in
 the components), every request path and every original path.  Only property theorems and
 non-vacuity examples live in this file.
@@ -868,6 +870,68 @@ theorem C17_filter_mem (links : List Link) (implInfo : Option Str) (queries : Li
   refine ⟨List.filter_sublist, fun l => ?_⟩
   rw [List.mem_filter, hkeep]
 
+-- the listing on the wire -------------------------------------------------------------------------
+
+/-- a link-param name as RFC 6690 §2 allows it (`parmname`, RFC 5987 §3.2.1): non-empty, made of
+`attr-char`s (letters, digits, ``!#$&+-.^_`|~``) or `*` -/
+def ParmName (k : Str) : Prop := k ≠ [] ∧ ∀ c ∈ k, nameChar c = true
+
+/-- **C17 (the listing a client reads is the listing that was rendered).** What reaches a client is
+the payload.  An RFC 6690 reader (link-values separated by `,`, `<target>`, `;name` or
+`;name="quoted-string"` where `\` + any character stands for that character) gets from the payload
+of `/.well-known/core` exactly the links `render_get` selected: each one separately, in order, with
+its own target and its own attributes value for value — WHATEVER bytes the attribute values
+contain (backslashes, also at the very end; double quotes; `,` `;` `<` `>` `=`; non-ASCII; nothing
+at all), for every tree of registrations and every query.  Hypotheses: the resources describe
+themselves with parameter names that are `parmname`s, and an impl-info URI has no `>`. -/
+theorem C17_listing_wire_roundtrip (s : Site) (implInfo : Option Str) (queries : List Str)
+    (hnames : ∀ fp r, Registered s fp r → r.hidden = false → ∀ a ∈ r.attrs, ParmName a.1)
+    (himpl : ∀ u, implInfo = some u → 62 ∉ u) :
+    readLinkFormat (wkcPayload s.links implInfo queries) =
+      some (wkcRender s.links implInfo queries) := by
+  unfold wkcPayload
+  apply readLinkFormat_linkFormatStr
+  intro l hl
+  have hall := ((C17_wkc_filters_mem s.links implInfo queries).2 l).mp hl |>.1
+  unfold wkcAll at hall
+  rcases List.mem_append.mp hall with h | h
+  · obtain ⟨fp, r, hreg, hv, rfl⟩ := (C17_wkc_exact s l).mp h
+    exact ⟨hrefSegs_no_gt fp, hnames fp r hreg hv⟩
+  · cases implInfo with
+    | none => cases h
+    | some u =>
+      simp only [List.mem_singleton] at h
+      subst h
+      refine ⟨himpl u rfl, ?_⟩
+      intro a ha
+      simp only [implInfoLink, List.mem_singleton] at ha
+      subst ha
+      exact ⟨by decide, by decide⟩
+
+/-- **C17 (discovery clause, on the wire).** Without a query and without impl-info link, an RFC 6690
+reader of the `/.well-known/core` payload obtains one link per registered resource that does not
+hide itself and nothing else: a link is read iff it is `<href of the full path through the nested
+sites>` with the description of such a resource, and there are as many links as such resources —
+no resource's description can remove or alter another resource's link. -/
+theorem C17_wire_listing_names_registered (s : Site)
+    (hnames : ∀ fp r, Registered s fp r → r.hidden = false → ∀ a ∈ r.attrs, ParmName a.1) :
+    ∃ ls, readLinkFormat (wkcPayload s.links none []) = some ls ∧ ls.length = s.visibleCount ∧
+      ∀ l, l ∈ ls ↔ ∃ fp r, Registered s fp r ∧ r.hidden = false ∧ l = ⟨hrefSegs fp, r.attrs⟩ := by
+  refine ⟨s.links, ?_, C17_wkc_count s, C17_wkc_exact s⟩
+  have h := C17_listing_wire_roundtrip s none [] hnames (fun u hu => by cases hu)
+  have e : wkcRender s.links none [] = s.links := by
+    rw [C17_no_filter_full_listing s.links none [] (by simp)]
+    simp [wkcAll]
+  rw [h, e]
+
+/-- **C17 (a value ends at its own closing quote).** Inside a quoted-string the reader is back
+behind the parameter exactly after the closing quote `Link.__str__` wrote, with exactly the value
+that was written — whatever the value is and whatever text follows. -/
+theorem C17_quoted_value_framing (done : List Link) (cur : Cur) (name v rest : Str) :
+    readGo done cur (.quoted name []) (quoteValue v ++ 34 :: rest) =
+      readGo done (cur.push (name.reverse, some v)) .params rest := by
+  rw [readGo_quoted]; rfl
+
 -- non-vacuity ----------------------------------------------------------------------------------
 
 /-- `/batch` example of the `Site` docstring plus shadowing (`b` = 98, `l` = 108, …): resource `1`
@@ -1004,5 +1068,53 @@ example : (wkcRender twoFilterLinks none [[114, 116, 61, 116, 101, 109, 112]]).m
     [[47, 116], [47, 117]] := by decide
 example : (wkcRender twoFilterLinks none
     [[114, 116, 61, 116, 42], [114, 116, 61, 108, 42]]).map (·.href) = [] := by decide  -- same name twice
+
+/-- the reviewer's listing: `/a` titled `C:\`, then `/b`, `/c`.  Written as
+`</a>;title="C:\\",</b>;rt="x",</c>;rt="y"`, read back link for link -/
+def backslashLinks : List Link :=
+  [⟨[47, 97], [([116, 105, 116, 108, 101], some [67, 58, 92])]⟩,
+   ⟨[47, 98], [(kRt, some [120]), ([111, 98, 115], none)]⟩,
+   ⟨[47, 99], [(kRt, some [121])]⟩]
+example : linkFormatStr backslashLinks =
+    [60, 47, 97, 62, 59, 116, 105, 116, 108, 101, 61, 34, 67, 58, 92, 92, 34, 44,
+     60, 47, 98, 62, 59, 114, 116, 61, 34, 120, 34, 59, 111, 98, 115, 44,
+     60, 47, 99, 62, 59, 114, 116, 61, 34, 121, 34] := by decide
+example : readLinkFormat (linkFormatStr backslashLinks) = some backslashLinks := by decide
+example : quoteValue [92, 34] = [92, 92, 92, 34] := by decide            -- `\"` ↦ `\\\"`
+/-- the reader is not lenient: the text the code wrote before the fix (`title="C:\",</b>…`, the
+backslash unescaped) is no link-format at all — `/b` and `/c` were lost to the client —, and for
+`a\b` written unescaped it reads `ab` -/
+example : readLinkFormat
+    [60, 47, 97, 62, 59, 116, 105, 116, 108, 101, 61, 34, 67, 58, 92, 34, 44,
+     60, 47, 98, 62, 59, 114, 116, 61, 34, 120, 34, 44,
+     60, 47, 99, 62, 59, 114, 116, 61, 34, 121, 34] = none := by decide
+example : readLinkFormat [60, 47, 97, 62, 59, 116, 61, 34, 97, 92, 98, 34] =
+    some [⟨[47, 97], [([116], some [97, 98])]⟩] := by decide
+example : readLinkFormat [60, 47, 97, 62, 44] = none := by decide           -- trailing comma
+example : readLinkFormat [] = some [] := by decide
+/-- a tree with such descriptions, a nested site included: the payload of its listing reads back
+as its links, and the hypothesis of `C17_listing_wire_roundtrip` holds for it -/
+def describedSite : Site :=
+  .node [([[97]], ⟨1, false, [([116, 105, 116, 108, 101], some [67, 58, 92])]⟩),
+         ([[98]], ⟨2, false, [(kRt, some [120])]⟩), ([[104]], ⟨3, true, []⟩)]
+    [([[110]], .node [([[101]], ⟨4, false, [([101, 120, 116], some [92, 34]), ([111, 98, 115], none)]⟩)] [])]
+example : readLinkFormat (wkcPayload describedSite.links none []) = some describedSite.links := by
+  decide
+example : describedSite.links.map (·.href) = [[47, 97], [47, 98], [47, 110, 47, 101]] := by decide
+example : ∀ l ∈ describedSite.links, ∀ a ∈ l.attrs, ParmName a.1 := by
+  have e : describedSite.links =
+      [⟨[47, 97], [([116, 105, 116, 108, 101], some [67, 58, 92])]⟩, ⟨[47, 98], [(kRt, some [120])]⟩,
+       ⟨[47, 110, 47, 101], [([101, 120, 116], some [92, 34]), ([111, 98, 115], none)]⟩] := by decide
+  rw [e]
+  intro l hl a ha
+  simp only [List.mem_cons, List.not_mem_nil, or_false] at hl
+  rcases hl with rfl | rfl | rfl <;> simp only [List.mem_cons, List.not_mem_nil, or_false] at ha
+  · subst ha; exact ⟨by decide, by decide⟩
+  · subst ha; exact ⟨by decide, by decide⟩
+  · rcases ha with rfl | rfl <;> exact ⟨by decide, by decide⟩
+example : ∀ l ∈ backslashLinks, LinkWf l := by
+  intro l hl
+  simp only [backslashLinks, List.mem_cons, List.not_mem_nil, or_false] at hl
+  rcases hl with rfl | rfl | rfl <;> exact ⟨by decide, by decide⟩
 
 end Aiocoap.Apps
